@@ -168,6 +168,24 @@ let predict (c : string) (obs : string) : string * string * bool =
         else if post_s <> post then "ahttp:shared-definition-altered"
         else "ahttp:rendered:" ^ first_shot_diff 0 want_shots shots in
       (want, verdict ok why, List.length order > 1 && List.exists (fun d -> d.h_headers <> []) defs)
+  | "ammo" :: ninst :: _ ->
+      if obs = "hang" then ("run", "BAD:ammo:engine-hang", false)
+      else begin
+        let parse s =
+          let body = String.sub s 1 (String.length s - 1) in
+          match String.split_on_char '.' body with
+          | [r; a] ->
+              let r = nat_of_int (int_of_string r) and a = nat_of_int (int_of_string a) in
+              if s.[0] = 'q' then AAcq (r, a) else ARel (r, a)
+          | _ -> failwith "ammo event" in
+        let evs = if obs = "-" then [] else List.map parse (split ',' obs) in
+        let spec_ok = ammo_exclusive_b evs in
+        match arun [] evs with
+        | Some _ -> (obs, verdict spec_ok "ammo:object-not-exclusive", int_of_string ninst > 1 && List.length evs > 8)
+        | None ->
+            let k = (match arun_stuck [] evs O with Some k -> int_of_nat k | None -> -1) in
+            (Printf.sprintf "model-rejects-event-%d" k, verdict spec_ok "ammo:object-not-exclusive", false)
+      end
   | ["sched"; ninst; _; _] ->
       (* running a pool over a shared built-in schedule ends without a runtime fault *)
       let why = if obs = "hang" then "sched:engine-hang"
